@@ -43,6 +43,12 @@ coq/Properties_C09.vos coq/Properties_C09.vok coq/Properties_C09.required_vos: c
 coq/Properties_C10.vo coq/Properties_C10.glob coq/Properties_C10.v.beautified coq/Properties_C10.required_vo: coq/Properties_C10.v coq/Constants.vo
 coq/Properties_C10.vio: coq/Properties_C10.v coq/Constants.vio
 coq/Properties_C10.vos coq/Properties_C10.vok coq/Properties_C10.required_vos: coq/Properties_C10.v coq/Constants.vos
+coq/Properties_C11.vo coq/Properties_C11.glob coq/Properties_C11.v.beautified coq/Properties_C11.required_vo: coq/Properties_C11.v coq/Constants.vo
+coq/Properties_C11.vio: coq/Properties_C11.v coq/Constants.vio
+coq/Properties_C11.vos coq/Properties_C11.vok coq/Properties_C11.required_vos: coq/Properties_C11.v coq/Constants.vos
+coq/Properties_C12.vo coq/Properties_C12.glob coq/Properties_C12.v.beautified coq/Properties_C12.required_vo: coq/Properties_C12.v coq/Constants.vo
+coq/Properties_C12.vio: coq/Properties_C12.v coq/Constants.vio
+coq/Properties_C12.vos coq/Properties_C12.vok coq/Properties_C12.required_vos: coq/Properties_C12.v coq/Constants.vos
 coq/Properties_C15.vo coq/Properties_C15.glob coq/Properties_C15.v.beautified coq/Properties_C15.required_vo: coq/Properties_C15.v coq/Constants.vo
 coq/Properties_C15.vio: coq/Properties_C15.v coq/Constants.vio
 coq/Properties_C15.vos coq/Properties_C15.vok coq/Properties_C15.required_vos: coq/Properties_C15.v coq/Constants.vos
